@@ -280,12 +280,12 @@ def gen_enum_v0(d, expanded, H):
             # and the same contract, verified on its own; the closure just calls it
             occ += 1
             fname = 'de_case_%d_%d' % (idx, occ)
-            body = catgen_evolved.annotate_reader(body, '%s case %d' % (X, idx), case_specs[idx]['k'])
+            body, lost = catgen_evolved.annotate_reader(body, '%s case %d' % (X, idx), case_specs[idx]['k'])
             body = body.replace('{', '{\n        broadcast use {lemma_rf_step, lemma_rof_step};\n        proof { reveal_strlits(); reveal(dec_%s); }' % case_specs[idx]['N'], 1)
             contract = ann_for(idx)
             contract = contract[contract.index('\n') + 1:].rstrip('{')
-            case_fns.append('//#fn id=catalogue::%s::deserialize::case%d_%d tags=C02,C03,C13,C14,C05,C06,C07 mode=body\n#[verifier::rlimit(200)]\nfn %s(context: &mut DeserializationContext<\'_>) -> (cr: Result<Self>)\n%s%s\n'
-                            % (X, idx, occ, fname, contract, body))
+            case_fns.append('//#fn id=catalogue::%s::deserialize::case%d_%d tags=C02,C03,C13,C14,C05,C06,C07 mode=body%s\n#[verifier::rlimit(200)]\nfn %s(context: &mut DeserializationContext<\'_>) -> (cr: Result<Self>)\n%s%s\n'
+                            % (X, idx, occ, (' lost=' + ';'.join(lost)) if lost else '', fname, contract, body))
             body = '{ Self::%s(context) }' % fname
         db = db[:m.start()] + head + body[1:] + db[cb + 1:]
         pos = m.start() + len(head) + len(body) - 1
